@@ -168,7 +168,14 @@ def run(ctx):
                 "adaptive x logqp x grad_free(milstein) x adjoint_method{9,None} x adjoint grad_free, plus 14 malformed "
                 "classes crossed with a covering subset); each is executed on the real sdeint/sdeint_adjoint(+backward) "
                 "once per concrete instance of its malformed class / bad attribute; a case is distinct per "
-                "(configuration, instance); thorough = all, quick = all documented-OK + pairwise slice + 4000 sampled")
+                "(configuration, instance); thorough = all, quick = all documented-OK + pairwise slice + 4000 sampled. "
+                "Specification growth (model drift only, never a verdict): the warning behaviour of the accepted "
+                "configurations, of BrownianInterval.__call__ clamping and of the minimum-step check is printed by "
+                "spec/DispatchWarn.tla (declarative ExpectedWarnings = one-action-per-warning-site pipeline) and "
+                "replayed by harness/dispatch_warn.py under warnings.catch_warnings(record=True): thorough = every "
+                "accepted api x sde type x noise x method x adjoint_method x adaptive x adjoint_adaptive x ts "
+                "alignment x #unknown kwargs, quick = a stratified ~150 of them; all 72 Brownian grid queries x 2 "
+                "variants and all 39 controller scripts in both tiers; keys start with 'warn-'")
     ctx.assumptions = [
         "one tiny problem per configuration (batch 2, d=2, m=1/2/3, ts=(0,.25,.5), dt=1/8; loose tolerances when "
         "adaptive): dispatch does not depend on values",
@@ -179,6 +186,19 @@ def run(ctx):
         "for classes the property does not list (logqp without h) and for backward refusals only 'an error' is "
         "demanded, the observed type is reported in error_types_not_fixed_by_the_property",
     ]
+    _warning_behaviour(ctx)
+    ctx.notes["wall"] = round(time.time() - t0, 1)
+
+
+def _warning_behaviour(ctx):
+    """Specification growth beyond the listed properties (spec/DispatchWarn.tla): disagreements are model drift,
+    a failure of this part is recorded in the notes; the C19 verdict is decided above and is not affected."""
+    try:
+        from harness import dispatch_warn
+        dispatch_warn.run(ctx, ctx.tier != "thorough")
+    except Exception:  # noqa: not part of the verdict
+        import traceback
+        ctx.notes["dispatch_warn_failure"] = traceback.format_exc()[-2000:]
 
 
 def replay(path):
